@@ -190,10 +190,34 @@ impl Property for C11 {
             d.env = Some([(s.clone(), "v".to_string())].into());
             Some(Spec { doc: Doc::Link(d), key: KeySpec::Ed { seed: 3, pkcs8: true }, prelude: (i % 4) as u8 })
         });
-        Box::new(specs.into_iter().chain(it2).enumerate().filter(move |(i, _)| i % workers == worker).map(|(_, s)| s))
+        // sibling member names: one common stem, then two different characters from an ordering-critical alphabet
+        // (escaped characters, their escape introducer, neighbours of both in code-point order, encoding-range edges)
+        const SIBLING: &[&str] = &["\"", "\\", "!", "#", "/", "0", "A", "[", "]", "a", "\u{7f}", "é", "\u{ffff}", "\u{10000}", "\n"];
+        let mut pairs: Vec<Spec> = vec![];
+        for tail in ["z", "é"] {
+        for (xi, x) in SIBLING.iter().enumerate() {
+            for (yi, y) in SIBLING.iter().enumerate() {
+                if xi == yi {
+                    continue;
+                }
+                // (second round: the first name ends in a non-ASCII character, the second stays as it is)
+                let x = &format!("{}{}", x, if tail == "z" { "" } else { tail });
+                let mut d = match doc_with_text(2, "siblings") {
+                    Doc::Link(l) => l,
+                    _ => unreachable!(),
+                };
+                d.env = Some([(format!("k{}z", x), "1".to_string()), (format!("k{}z", y), "2".to_string())].into());
+                let dg: Digests = [("sha256".to_string(), DIGEST_POOL_256[0].to_string())].into();
+                d.products = [(format!("release/{}notes", x), dg.clone()), (format!("release/{}notes", y), dg.clone())].into();
+                d.byproducts.other = [(format!("x{}", x), "1".to_string()), (format!("x{}", y), "2".to_string())].into();
+                pairs.push(Spec { doc: Doc::Link(d), key: KeySpec::Ed { seed: 4, pkcs8: (xi + yi) % 2 == 0 }, prelude: ((xi + yi) % 4) as u8 });
+            }
+        }
+        }
+        Box::new(specs.into_iter().chain(pairs).chain(it2).enumerate().filter(move |(i, _)| i % workers == worker).map(|(_, s)| s))
     }
     fn enumeration_exhaustive(_tier: Tier) -> Option<String> {
-        Some("64 two-character combinations over {\\ \" n LF t TAB u /} x 16 string fields; all Unicode scalar values in stdout and an environment key".into())
+        Some("64 two-character combinations over {\\ \" n LF t TAB u /} x 16 string fields; all 210 ordered pairs of sibling member names (common stem, then one of 15 ordering-critical characters; once more with the first name ending in a non-ASCII character) in environment, products and extra byproducts; all Unicode scalar values in stdout and an environment key".into())
     }
     fn concurrent() -> bool {
         true
